@@ -490,7 +490,7 @@ def strip_clones(fn, o, depth=0):
                 if all(e == "*" for e in q[1]):
                     return strip_clones(fn, {"c": [q[0], []]}, depth + 1)
                 return q[0]
-            if r["k"] == "use" and op_place(r["o"]) is not None:
+            if r["k"] == "use" and op_place(r["o"]) is not None and all(e == "*" for e in op_place(r["o"])[1]):
                 return strip_clones(fn, r["o"], depth + 1)
             if r["k"] == "cast" and r["ck"].startswith("Coerce") and op_place(r["o"]) is not None:
                 return strip_clones(fn, r["o"], depth + 1)
